@@ -173,8 +173,9 @@ func (c *Ctx) execStmt(env *Env, s ast.Stmt, st *State) []*State {
 	case *ast.EmptyStmt:
 		return alive(st)
 	case *ast.SendStmt:
-		env.eval(x.Value, st)
+		v := env.eval(x.Value, st)
 		c.trust("channel sends are not modelled")
+		c.chanOp(env, "send", x.Chan, []Val{v}, st, x.Pos())
 		return alive(st)
 	case *ast.SelectStmt:
 		return c.execSelect(env, x, st)
@@ -1534,9 +1535,18 @@ func (c *Ctx) execSelect(env *Env, x *ast.SelectStmt, st *State) []*State {
 		switch cm := cc.Comm.(type) {
 		case nil:
 		case *ast.SendStmt:
-			env.eval(cm.Value, t)
+			v := env.eval(cm.Value, t)
+			c.chanOp(env, "send", cm.Chan, []Val{v}, t, cm.Pos())
 		case *ast.ExprStmt:
+			if ue, ok := unparen(cm.X).(*ast.UnaryExpr); ok && ue.Op == token.ARROW {
+				c.chanOp(env, "recv", ue.X, nil, t, cm.Pos())
+			}
 		case *ast.AssignStmt:
+			if len(cm.Rhs) == 1 {
+				if ue, ok := unparen(cm.Rhs[0]).(*ast.UnaryExpr); ok && ue.Op == token.ARROW {
+					c.chanOp(env, "recv", ue.X, nil, t, cm.Pos())
+				}
+			}
 			if len(cm.Rhs) == 1 {
 				if ue, ok := unparen(cm.Rhs[0]).(*ast.UnaryExpr); ok && ue.Op == token.ARROW {
 					var et types.Type
@@ -1565,4 +1575,23 @@ func (c *Ctx) execSelect(env *Env, x *ast.SelectStmt, st *State) []*State {
 	fr.loops = fr.loops[:len(fr.loops)-1]
 	out = append(out, lc.breaks...)
 	return out
+}
+
+// chanOp records a channel operation in the per-path call log under the name "send:<chan>" or
+// "recv:<chan>" (<chan> = the last identifier of the channel expression: x.C -> C), so that
+// `order`, `atcall` and called() can speak about hand-shakes: "a read function is offered only
+// after the completion signal of the previous one was received". Channels themselves (buffering,
+// blocking) stay unmodelled.
+func (c *Ctx) chanOp(env *Env, kind string, ch ast.Expr, args []Val, st *State, pos token.Pos) {
+	name := ""
+	switch x := unparen(ch).(type) {
+	case *ast.Ident:
+		name = x.Name
+	case *ast.SelectorExpr:
+		name = x.Sel.Name
+	}
+	if name == "" || env.contract {
+		return
+	}
+	env.callHooksNamed(kind+":"+name, nil, args, st, &ast.CallExpr{Fun: &ast.Ident{NamePos: pos, Name: kind + ":" + name}, Lparen: pos, Rparen: pos})
 }
